@@ -6,6 +6,9 @@ Families
   strtokens : several strings in one document, earlier ones ending in an escaped backslash / holding escaped quotes, later ones (and keys)
               holding what would be tokens outside a string (NaN, Infinity, null, true, numbers, brackets, colons, commas, comments):
               the contents of a string are never looked at as JSON
+  bigobj    : objects with 20..65 members whose keys are written in scrambled, ascending or descending order and one key written twice
+              or three times with different values at several distances (the last one written wins, whatever the number or the order
+              of the members: a reader that sorts or batches members must keep their order of arrival)
   nonjson   : texts that other dialects accept and JSON does not (NaN, Infinity, comments, trailing commas, single quotes, hex, +1, .5)
 """
 import itertools, json, os
@@ -47,6 +50,27 @@ for v in ["a\\r\\nb", "\\r\\n", "x\\u000d\\u000Ay", "\\r\\r\\n\\n", "\\n\\r", "l
     add('["%s"]' % v)
     add('{"v":"%s","%s":1}' % (v, v))
     add('{"a":{"b":["%s","%s"]}}' % (v, v))
+# big objects with a repeated key (the last one written wins), keys in scrambled / ascending / descending order
+for n in (20, 33, 34, 40, 65):
+    for mul in (1, -1, 7, 11):
+        order = [(i * abs(mul)) % n for i in range(n)] if abs(mul) > 1 else list(range(n))
+        if len(set(order)) != n:
+            order = [(i * 13 + 5) % n for i in range(n)] if len({(i * 13 + 5) % n for i in range(n)}) == n else list(range(n))
+        if mul == -1:
+            order.reverse()
+        for (i, j) in ((0, 1), (0, n - 1), (n // 2, n // 2 + 1), (n // 3, 2 * n // 3), (n - 2, n - 1), (1, n // 2)):
+            members = ['"k%03d":%d' % (k, k) for k in order]
+            dup = order[i]
+            members[i] = '"k%03d":"first"' % dup
+            members.insert(j + 1, '"k%03d":"last"' % dup)
+            add("{" + ",".join(members) + "}")
+        members = ['"k%03d":%d' % (k, k) for k in order]
+        dup = order[2]
+        members[2] = '"k%03d":"first"' % dup
+        members.insert(n // 2, '"k%03d":"middle"' % dup)
+        members.append('"k%03d":"last"' % dup)
+        add("{" + ",".join(members) + "}")
+        add('{"rows":[{' + ",".join(members) + '}],"rows":"last"}')
 out = os.path.join(VERIF, "spec", "gen", "json_pools.ndjson")
 with open(out, "w") as f:
     for c in cases:
